@@ -17,7 +17,10 @@ import (
 	"github.com/tink-crypto/tink-go/v2/key"
 	"github.com/tink-crypto/tink-go/v2/keyset"
 	macsubtle "github.com/tink-crypto/tink-go/v2/mac/subtle"
+	"github.com/tink-crypto/tink-go/v2/signature"
 	"github.com/tink-crypto/tink-go/v2/signature/ecdsa"
+	"github.com/tink-crypto/tink-go/v2/signature/mldsa"
+	"github.com/tink-crypto/tink-go/v2/signprehash"
 	sigsubtle "github.com/tink-crypto/tink-go/v2/signature/subtle"
 	saesctrhmac "github.com/tink-crypto/tink-go/v2/streamingaead/aesctrhmac"
 	"github.com/tink-crypto/tink-go/v2/streamingaead/aesgcmhkdf"
@@ -27,9 +30,10 @@ import (
 )
 
 type prim struct {
-	kind      string // "factory" | "subtle"
+	kind      string // "factory" | "subtle" | "prehash"
 	prefixLen int
 	produce   func(msg, aad []byte) ([]byte, error)
+	verify    func(out, msg []byte) error // optional: the ordinary accepting primitive
 }
 
 func outputPrefixLen(k key.Key) int {
@@ -138,6 +142,45 @@ func subtlePrim(k key.Key) (p *prim, ok bool, err error) {
 		return &prim{kind: "subtle", produce: func(msg, _ []byte) ([]byte, error) { return s.Sign(msg) }}, true, nil
 	}
 	return nil, false, nil
+}
+
+// prehashPrim is the external-mu signing path of ML-DSA keys that carry an ID
+// requirement: signprehash.NewPrehash(public).ComputePrehash(msg) followed by
+// signprehash.NewPrehashSigner(private).SignPrehash(prehash). Its output is an
+// ordinary ML-DSA signature of msg, checked with signature.NewVerifier.
+func prehashPrim(k key.Key, h *keyset.Handle) (p *prim, ok bool, err error) {
+	pk, isML := k.(*mldsa.PrivateKey)
+	if !isML {
+		return nil, false, nil
+	}
+	if par, isPar := pk.Parameters().(*mldsa.Parameters); !isPar || par.Variant() == mldsa.VariantNoPrefix {
+		return nil, false, nil
+	}
+	pub, err := h.Public()
+	if err != nil {
+		return nil, true, err
+	}
+	ph, err := signprehash.NewPrehash(pub)
+	if err != nil {
+		return nil, true, err
+	}
+	sg, err := signprehash.NewPrehashSigner(h)
+	if err != nil {
+		return nil, true, err
+	}
+	vf, err := signature.NewVerifier(pub)
+	if err != nil {
+		return nil, true, err
+	}
+	return &prim{kind: "prehash", prefixLen: outputPrefixLen(k),
+		produce: func(msg, _ []byte) ([]byte, error) {
+			d, err := ph.ComputePrehash(msg)
+			if err != nil {
+				return nil, err
+			}
+			return sg.SignPrehash(d)
+		},
+		verify: func(out, msg []byte) error { return vf.Verify(out, msg) }}, true, nil
 }
 
 func describe(err error) string {
